@@ -56,6 +56,48 @@ def writer_tag_sites(model: Model, folder: Folder):
     return sites
 
 
+def fold_at_call_sites(model: Model, folder: Folder, fi, expr: ast.expr, self_cls, depth: int = 0):
+    """Values of `expr` (which mentions parameters of fi) at every call site of fi in the package, or None when some call
+    site does not pass constants."""
+    ps = fi.params()
+    off = 1 if fi.cls and not fi.is_staticmethod else 0
+    used = {x.id for x in ast.walk(expr) if isinstance(x, ast.Name) and x.id in ps[off:]}
+    if not used or depth > 2 or isinstance(fi.node, ast.Lambda):
+        return None
+    if any(isinstance(x, ast.Name) and x.id in used and isinstance(x.ctx, ast.Store) for x in walk_no_nested(fi.node)):
+        return None
+    vals = []
+    n_sites = 0
+    for cq, cfi in model.functions.items():
+        if isinstance(cfi.node, ast.Lambda) or fi.name not in model.modules[cfi.module].source:
+            continue
+        for n in walk_no_nested(cfi.node):
+            if not isinstance(n, ast.Call):
+                continue
+            f = n.func
+            hit = (isinstance(f, ast.Name) and model.resolve_name(cfi.module, f.id) == fi.qualname) or \
+                  (isinstance(f, ast.Attribute) and f.attr == fi.name and fi.cls is not None and isinstance(f.value, ast.Name) and f.value.id in ("self", "cls") and
+                   cfi.cls is not None and model.find_method(cfi.cls, f.attr) is fi)
+            if not hit:
+                continue
+            n_sites += 1
+            env = {}
+            for p_ in used:
+                i = ps.index(p_) - off
+                a = n.args[i] if i < len(n.args) else next((k.value for k in n.keywords if k.arg == p_), None)
+                if a is None:
+                    return None
+                try:
+                    env[p_] = folder.fold(a, cfi.module, None, cfi.cls if f and isinstance(f, ast.Attribute) else None)
+                except Unfoldable:
+                    return None
+            try:
+                vals.append(folder.fold(expr, fi.module, env, self_cls))
+            except Unfoldable:
+                return None
+    return vals if n_sites else None
+
+
 def check_tags(model: Model, run: Run, folder: Folder) -> bool:
     ok_all = True
     sites = writer_tag_sites(model, folder)
@@ -77,6 +119,11 @@ def check_tags(model: Model, run: Run, folder: Folder) -> bool:
             except Unfoldable as ex:
                 good = False
                 v = f"unfoldable: {ex}"
+                # the expression depends on parameters of the enclosing helper: fold it once per call site of the helper
+                vals = fold_at_call_sites(model, folder, fi, tag.values[-1] if isinstance(tag, ast.BoolOp) and isinstance(tag.op, ast.Or) else tag, k)
+                if vals is not None:
+                    good = all(isinstance(x, TagConst) and isinstance(x.tag_class, EnumConst) and x.tag_class.cls.endswith(".TagClass") and isinstance(x.num, int) and x.num >= 0 for x in vals)
+                    v = vals
             run.ob("P2-constant-tags", good, {"function": fi.qualname, "class": k, "tag": repr(v)})
             if not good:
                 ok_all = False
@@ -213,7 +260,7 @@ def check(model: Model, run: Run) -> None:
     tags_ok = None
     getdata_ok = None
     from ..anchors import asn1 as asn1_anchors
-    packer_q = asn1_anchors(model).packer.qualname
+    packer_qs = {f.qualname for f in asn1_anchors(model).packer_family}
     for q in (CLIENT, SERVER):
         wfi = model.find_method(q, "receive")
         if wfi is base_fi:
@@ -233,11 +280,11 @@ def check(model: Model, run: Run) -> None:
                 if getdata_ok is None:
                     getdata_ok = check_get_data(model, run)
                 ok, why = getdata_ok, "every get_data() receiver is a local root ASN1Writer()"
-            elif e.func == packer_q and e.exc == "ValueError" and not ("len(" in e.text and e.kind == "implicit"):
+            elif e.func in packer_qs and e.exc == "ValueError" and not ("len(" in e.text and e.kind == "implicit"):
                 if tags_ok is None:
                     tags_ok = check_tags(model, run, folder)
                 ok, why = tags_ok, "every tag handed to the writer folds to a constant with a TagClass member and a number >= 0"
-            elif e.func == packer_q and e.exc == "ValueError" and "len(" in e.text:
+            elif e.func in packer_qs and e.exc == "ValueError" and "len(" in e.text:
                 ok, why = check_len_octets(model, e)
             elif e.exc == "UnicodeEncodeError":
                 ok, why = encode_discharge(model, ex, q, e, responses, folder, mr, run)
